@@ -38,6 +38,10 @@ def make(p):
         Xv = torch.randn(max(20, n // 2), d, generator=g)
         Q = torch.cat([torch.randn(40, d, generator=g), X[:10], X[n // 2: n // 2 + 4] * 1e3,
                        torch.randn(3, d, generator=g) * 1e6])
+        if p.get('big'):
+            # a batch large enough to cross the internal chunk sizes (20,000 rows in the product kernel, 50,000 in RFM.predict):
+            # the first 64 rows are the ones judged, the rest is filler drawn from the same distribution
+            Q = torch.cat([Q[:64], torch.randn(p['big'] - 64, d, generator=g)])
     dd = X.shape[1]
     if p['task'] == 'reg':
         f = lambda Z: torch.cat([torch.sin(Z[:, :1]), 0.3 * Z[:, 1:2] ** 2, Z[:, :1] * Z[:, 1:2]][: p['outputs']], dim=1)
@@ -169,8 +173,12 @@ def execute(chunk):
                     if p['exact']:
                         for nid, nd in enumerate(nodes):
                             stats['on_threshold'] += int(np.sum(Q64 @ t2n(nd['split_direction']) == float(nd['split_point'])))
+                big_full = None
+                if p.get('big'):
+                    big_full = Q                      # whole batch, predicted in one call below
+                    keep_all[64:] = False             # judged rows: the first 64 (minus near-threshold ones)
                 stats['rows'] = int(keep_all.sum())
-                stats['near_excluded'] = int((~keep_all).sum())
+                stats['near_excluded'] = int((~keep_all[:64]).sum()) if p.get('big') else int((~keep_all).sum())
                 Qk = Q[torch.as_tensor(keep_all)]
                 Qk64 = Q64[keep_all]
                 nk = Qk.shape[0]
@@ -266,6 +274,16 @@ def execute(chunk):
                     clear = (srt[:, -1] - srt[:, -2]) > 4 * pa[:, 0]
                     if (P[clear] != lab_ref_p.argmax(1)[clear]).any():
                         res['failures'].append({'signature': 'C01:labels', 'detail': 'predict differs from the arg-max of the decoded mean output'})
+                # ---- a row's value inside a very large batch (internal chunking of kernels / RFM.predict) -------
+                if big_full is not None:
+                    small = (m.predict_proba(Qk) if is_class else m.predict(Qk)).astype(np.float64)
+                    bigp = (m.predict_proba(big_full) if is_class else m.predict(big_full)).astype(np.float64)
+                    bigp = bigp[np.nonzero(keep_all)[0]]
+                    tolb = 2 * (mean_allow.max(axis=1) * (4.0 if is_class else 1.0)) + 1e-5
+                    if (np.abs(bigp.reshape(small.shape[0], -1) - small.reshape(small.shape[0], -1)).max(axis=1) > tolb).any():
+                        res['failures'].append({'signature': 'C01:batch-dependent',
+                                                'detail': f'prediction of a row differs between a {Qk.shape[0]}-row batch and a {big_full.shape[0]}-row batch by '
+                                                          f'{np.abs(bigp.reshape(small.shape[0], -1) - small.reshape(small.shape[0], -1)).max():.3e}'})
                 # ---- batch independence on the implementation ---------------------------------------------
                 if nk >= 4:
                     g = torch.Generator().manual_seed(p['dseed'] + 3)
@@ -338,6 +356,18 @@ def gen_cases(run):
                           d=r.randint(2, 5), method=r.choice(['random', 'pca', 'top_vector_agop_on_subset', 'linear']),
                           trees=r.choice([1, 1, 2, 3]), f=f if not exact else r.choice([0.0, 0.1]), outputs=r.randint(1, 3),
                           classes=r.choice([2, 3, 5]), exact=exact, dseed=r.randint(0, 10 ** 6)))
+    # ensembles cut short: several trees requested, the data fit one leaf (tree building stops after the first tree)
+    for k, (task, mode) in enumerate([('reg', 'zero_one'), ('class', 'prevalence')]):
+        cases.append(dict(family='fitted-models', task=task, mode=mode, kernel=list(KERNELS[k]), q=1.0, diag=False, adaptive=False,
+                          bandwidth=5.0, iters=1, L=10 ** 6, n=60, d=3, method='random', trees=3, f=0.0, outputs=2, classes=3,
+                          exact=False, dseed=r.randint(0, 10 ** 6)))
+    # very large batches: cross the 20,000-row chunking of the product kernel and the 50,000-row chunking of RFM.predict
+    bigs = [('l1', 20100), ('l2', 50100)] if run.tier == 'quick' else [('l1', 20100), ('l1', 40100), ('l2', 50100), ('lpq', 50100), ('l2_high_dim', 50100)]
+    for kn, big in bigs:
+        kern = [k for k in KERNELS if k[0] == kn][0]
+        cases.append(dict(family='large-batches', task='reg', mode='zero_one', kernel=list(kern), q=1.0, diag=r.random() < 0.5, adaptive=False,
+                          bandwidth=5.0, iters=2, L=10 ** 6 if kn == 'l1' else r.choice([30, 10 ** 6]), n=80, d=3, method='random', trees=1, f=0.0, outputs=1,
+                          classes=2, exact=False, big=big, dseed=r.randint(0, 10 ** 6)))
     return cases
 
 
